@@ -1,5 +1,6 @@
 import ScionVerif.Lemmas.CombSpec
 import ScionVerif.Lemmas.CombOrder
+import ScionVerif.Lemmas.CombComplete
 /-!
 # C04 — path combination is sound, complete, loop-free, duplicate-free and ordered; metadata truthful
 
@@ -393,9 +394,7 @@ theorem sorted_by_hop_count {src dst : Nat} {cores nonCores : List Seg} {out : L
 the multigraph that starts at `AS src`, obeys the segment-kind rule at every step (`canStep`), reaches
 `AS dst` with its last edge and not before (`Walk`).  Then it is a candidate solution, and if its path
 exists (encodes) and is loop-free, a path with exactly its interface list is offered, expiring no
-earlier.  (What is *not* proved: that every valid piece of `Spec/Combine.lean` is an edge of the
-multigraph — true when no AS or peering link occurs twice in a segment, so that no `HashMap::insert`
-overwrites an edge; see `complete` in the module comment.) -/
+earlier.  No hypothesis on the segments; `complete` below lifts this to the declarative rules. -/
 theorem complete_wrt_graph {src dst : Nat} {cores nonCores : List Seg} {out : List Path}
     (h : combine src dst cores nonCores = .ok out) (hne : src ≠ dst) (es : List GEdge)
     (hw : Walk (graphOf (inputSegs cores nonCores)) dst (Sol.new (.as src)) es) :
@@ -404,5 +403,47 @@ theorem complete_wrt_graph {src dst : Nat} {cores nonCores : List Seg} {out : Li
       ∃ q ∈ out, q.ifs = p.ifs ∧ p.expiry ≤ q.expiry := by
   have hc := candidates_complete _ src dst es hw
   exact ⟨hc, fun p hp hl => dedup_keeps_latest h _ hc p hp hl hne⟩
+
+/-! ## 9. complete -/
+
+/-- **Completeness.**  Let the given segments be such that the multigraph is faithful
+(`GraphFaithful`: no `HashMap::insert` of the graph construction overwrites an edge — no AS and no
+peering link twice in a segment —, the leaf AS of a segment occurs nowhere else in it, every segment
+has at least two AS entries).  Then every combination `c` that the declarative rules allow
+(`Spec.Valid`), whose intermediate joints are not the destination AS (the search stops at the first
+arrival at `dst`; a combination passing through `dst` would visit it twice), is found: it is the piece
+list of a candidate solution `t`; and if its path encodes (`solPath t = .path p`: at most 63 hop fields
+per segment, size within the header limit, at least one interface) and is loop-free, then a path with
+exactly the interface list of `c` is offered, expiring no earlier than `p`.
+
+Together with `sound`: for faithful segment sets the offered interface lists are exactly those of the
+loop-free, encodable valid combinations. -/
+theorem complete {src dst : Nat} {cores nonCores : List Seg} {out : List Path}
+    (h : combine src dst cores nonCores = .ok out) (hne : src ≠ dst)
+    (hg : GraphFaithful (inputSegs cores nonCores))
+    (c : List Spec.Piece) (hv : Spec.Valid (inputSegs cores nonCores) src dst c)
+    (hmid : ∀ p ∈ c.dropLast, p.to? ≠ some (.as dst)) :
+    ∃ t ∈ candidates (graphOf (inputSegs cores nonCores)) src dst, t.edges.map pieceOf = c ∧
+      ∀ p, solPath t = .path p → hasLoops p = false →
+        Spec.realises c = (p.segs, p.ifs) ∧ ∃ q ∈ out, q.ifs = (Spec.realises c).2 ∧ p.expiry ≤ q.expiry := by
+  rcases combo_candidate hg hv hmid with ⟨t, ht, hc⟩
+  refine ⟨t, ht, hc, ?_⟩
+  intro p hp hl
+  have hr := (solPath_realises hp).1
+  rw [hc] at hr
+  refine ⟨hr, ?_⟩
+  rcases dedup_keeps_latest h t ht p hp hl hne with ⟨q, hq, hqi, hqe⟩
+  exact ⟨q, hq, by rw [hr]; exact hqi, hqe⟩
+
+/-- non-vacuity: the segment set `[segWfEx]` is faithful -/
+example : GraphFaithful (inputSegs [] [segWfEx]) := by
+  refine ⟨?_, ?_, ?_⟩
+  · intro s hs; simp [inputSegs] at hs; subst hs; unfold NoOverwrite; decide +kernel
+  · intro s hs; simp [inputSegs] at hs; subst hs
+    intro x hx hlt leaf hl
+    simp [Seg.lastIa, segWfEx] at hl
+    subst hl
+    revert x; decide
+  · intro s hs; simp [inputSegs] at hs; subst hs; decide
 
 end ScionVerif.Comb
